@@ -70,7 +70,11 @@ func (r *c06Reader) Read(p []byte) (int, error) {
 func c06All(c *Ctx, text []byte, t reflect.Type, label string, light bool) {
 	run := func(name string, f func()) {
 		_, pan := safeDo(func() error { f(); return nil })
-		c.Oracle("returns/"+name+"/"+label, fmt.Sprintf("%q", trunc(text)), "panic "+pan, "returns", pan == "", "")
+		in := fmt.Sprintf("%q", trunc(text))
+		if pan != "" && len(text) <= 16384 {
+			in = fmt.Sprintf("%q", text) // a failing input is recorded whole: the replay needs every byte
+		}
+		c.Oracle("returns/"+name+"/"+label, in, "panic "+pan, "returns", pan == "", "")
 	}
 	cp := func() []byte { return append([]byte(nil), text...) }
 	run("Unmarshal-iface", func() { var v interface{}; _ = json.Unmarshal(cp(), &v) })
